@@ -485,17 +485,21 @@ static void runC35(Case& c) {
 // ------------------------------------------------------------------------------------------------
 // C36 Chase-Lev deque: one owner (push / pop), 1..3 thieves
 static void genC36(Rng& r, KV& kv, const Opts&) {
-  kv.set("cap", r.range(0, 3));
-  long Th = r.range(1, 3);
+  // focus class (1 in 3): a small deque kept full by a push-heavy owner while several thieves drain it - every
+  // successful steal is immediately followed by a push that wraps into the slot just vacated
+  bool full = r.chance(1, 3);
+  kv.set("cap", full ? r.range(0, 1) : r.range(0, 3));
+  kv.set("wide", r.range(0, 1)); // 0: int payload, 1: 32-byte POD payload
+  long Th = full ? r.range(2, 3) : r.range(1, 3);
   kv.set("Th", Th);
   std::string o;
-  long n = r.range(2, 12);
+  long n = full ? r.range(8, 20) : r.range(2, 12);
   for (long i = 0; i < n; ++i)
-    o += r.pick<const char*>({"p", "p", "p", "o", "o", "i"}), o += ",";
+    o += full ? r.pick<const char*>({"p", "p", "p", "p", "p", "p", "o", "i"}) : r.pick<const char*>({"p", "p", "p", "o", "o", "i"}), o += ",";
   kv.set("owner", o);
   for (long t = 0; t < Th; ++t) {
     std::string s;
-    long k = r.range(1, 6);
+    long k = full ? r.range(3, 8) : r.range(1, 6);
     for (long i = 0; i < k; ++i)
       s += r.pick<const char*>({"s", "s", "S"}), s += ",";
     kv.set("thief" + std::to_string(t), s);
@@ -503,7 +507,31 @@ static void genC36(Rng& r, KV& kv, const Opts&) {
   kv.set("burn", r.range(0, 4));
   kv.setu("mp", 300000);
 }
-template <typename Dq>
+// element types: int, and a 32-byte POD whose words all encode the id (a torn or stale copy is visible)
+struct Wide36 {
+  int32_t v, nv;
+  int64_t x, y, z;
+};
+static_assert(sizeof(Wide36) == 32, "wide payload");
+static inline void put36(int& e, int v) {
+  e = v;
+}
+static inline int get36(const int& e, bool& torn) {
+  torn = false;
+  return e;
+}
+static inline void put36(Wide36& e, int v) {
+  e.v = v;
+  e.nv = ~v;
+  e.x = (int64_t)v * 0x100000001ll;
+  e.y = (int64_t)v ^ 0x5a5a5a5a5a5all;
+  e.z = -(int64_t)v - 7;
+}
+static inline int get36(const Wide36& e, bool& torn) {
+  torn = !(e.nv == ~e.v && e.x == (int64_t)e.v * 0x100000001ll && e.y == ((int64_t)e.v ^ 0x5a5a5a5a5a5all) && e.z == -(int64_t)e.v - 7);
+  return e.v;
+}
+template <typename Dq, typename E>
 static void runC36T(Case& c) {
   int b = (int)c.p.i("burn");
   long Th = c.p.i("Th");
@@ -524,10 +552,14 @@ static void runC36T(Case& c) {
     Aligned<Dq> holder;
     Dq& dq = *holder;
     std::atomic<int> pushedCount{0};
-    auto taken = [&](int v, const char* who) {
+    auto taken = [&](const E& e, const char* who) -> int {
+      bool torn = false;
+      int v = get36(e, torn);
+      VF_CHECK(c, !torn, "torn-element", "%s returned an element whose words do not belong to one pushed value (id word %d)", who, v);
       VF_CHECK(c, v >= 0 && v < 512 && st.pushStart[v].load() != 0, "phantom-element", "%s returned %d which was never pushed", who, v);
       int n = st.popped[v].fetch_add(1) + 1;
       VF_CHECK(c, n == 1, "element-taken-twice", "element %d was returned by %d successful pop/steal calls", v, n);
+      return v;
     };
     std::thread owner([&]() {
       std::vector<int> mine; // pushed by the owner, not yet popped by the owner
@@ -537,7 +569,9 @@ static void runC36T(Case& c) {
         if (op[0] == 'p') {
           int stolenBefore = stolenDone.load();
           st.pushStart[next] = st.now();
-          bool ok = dq.try_push(next);
+          E pe;
+          put36(pe, next);
+          bool ok = dq.try_push(pe);
           if (ok) {
             st.pushEnd[next] = st.now();
             mine.push_back(next);
@@ -555,6 +589,8 @@ static void runC36T(Case& c) {
           }
         } else {
           int v = -1;
+          E ev;
+          put36(ev, -1);
           if (stealOpen.load() > 0) {
             int remaining = 0;
             for (int x : mine)
@@ -567,16 +603,16 @@ static void runC36T(Case& c) {
           long popS0 = st.now();
           bool ok;
           if (op[0] == 'o')
-            ok = dq.try_pop(v);
+            ok = dq.try_pop(ev);
           else {
-            alignas(int) char buf[sizeof(int)];
-            ok = dq.try_pop_into(reinterpret_cast<int*>(buf));
+            alignas(E) char buf[sizeof(E)];
+            ok = dq.try_pop_into(reinterpret_cast<E*>(buf));
             if (ok)
-              v = *reinterpret_cast<int*>(buf);
+              std::memcpy(&ev, buf, sizeof(E));
           }
           ownerPopOpen = 0;
           if (ok) {
-            taken(v, "owner pop");
+            v = taken(ev, "owner pop");
             ownerTakeStart[v] = popS0;
             VF_CHECK(c, !mine.empty() && v == mine.back(), "owner-pop-not-newest", "owner pop returned %d, the newest remaining element is %d", v, mine.empty() ? -1 : mine.back());
             mine.pop_back();
@@ -598,20 +634,22 @@ static void runC36T(Case& c) {
         for (auto& op : ops) {
           burn(b);
           int v = -1;
+          E ev;
+          put36(ev, -1);
           stealOpen.fetch_add(1);
           long s0 = st.now();
           bool ok;
           if (op[0] == 's')
-            ok = dq.try_steal(v);
+            ok = dq.try_steal(ev);
           else {
-            alignas(int) char buf[sizeof(int)];
-            ok = dq.try_steal_into(reinterpret_cast<int*>(buf));
+            alignas(E) char buf[sizeof(E)];
+            ok = dq.try_steal_into(reinterpret_cast<E*>(buf));
             if (ok)
-              v = *reinterpret_cast<int*>(buf);
+              std::memcpy(&ev, buf, sizeof(E));
           }
           stealOpen.fetch_sub(1);
           if (ok) {
-            taken(v, "steal");
+            v = taken(ev, "steal");
             st.popStart[v] = s0 + 2; // +2: distinguishes a real stamp from the owner's "seen empty" marker (1)
             st.popEnd[v] = st.now();
             stolenBy[v] = 1;
@@ -652,35 +690,44 @@ static void runC36T(Case& c) {
     bool flip = false;
     while (lo < hi) {
       int v = -1;
+      E ev;
+      put36(ev, -1);
+      bool torn = false;
       if (flip) {
-        VF_CHECK(c, dq.try_steal(v), "quiescent-steal", "try_steal failed on a non-empty deque at quiescence");
+        VF_CHECK(c, dq.try_steal(ev), "quiescent-steal", "try_steal failed on a non-empty deque at quiescence");
+        v = get36(ev, torn);
         VF_CHECK(c, v == left[lo], "steal-not-oldest", "quiescent steal returned %d, oldest is %d", v, left[lo]);
         ++lo;
       } else {
-        VF_CHECK(c, dq.try_pop(v), "quiescent-pop", "try_pop failed on a non-empty deque at quiescence");
+        VF_CHECK(c, dq.try_pop(ev), "quiescent-pop", "try_pop failed on a non-empty deque at quiescence");
+        v = get36(ev, torn);
         VF_CHECK(c, v == left[hi - 1], "owner-pop-not-newest", "quiescent pop returned %d, newest is %d", v, left[hi - 1]);
         --hi;
       }
       flip = !flip;
     }
-    int v = -1;
-    VF_CHECK(c, !dq.try_pop(v) && !dq.try_steal(v), "quiescent-empty", "pop or steal succeeded on an empty deque");
+    E ev;
+    put36(ev, -1);
+    VF_CHECK(c, !dq.try_pop(ev) && !dq.try_steal(ev), "quiescent-empty", "pop or steal succeeded on an empty deque");
   }
   c.nontrivial = lastElementRace.load() != 0;
   if (lastElementRace.load())
     c.cls("owner_pop_and_steal_overlapped_on_the_last_element");
   c.cls("capacity:" + std::to_string(cap));
+  c.cls(sizeof(E) > sizeof(void*) ? "payload:32-byte" : "payload:int");
+  c.cls("successful_steals", stolenDone.load());
 }
 static void runC36(Case& c) {
+  bool wide = c.p.i("wide", 0) != 0;
   switch (c.p.i("cap")) {
     case 0:
-      return runC36T<dispenso::ChaseLevDeque<int, 1>>(c);
+      return wide ? runC36T<dispenso::ChaseLevDeque<Wide36, 1>, Wide36>(c) : runC36T<dispenso::ChaseLevDeque<int, 1>, int>(c);
     case 1:
-      return runC36T<dispenso::ChaseLevDeque<int, 2>>(c);
+      return wide ? runC36T<dispenso::ChaseLevDeque<Wide36, 2>, Wide36>(c) : runC36T<dispenso::ChaseLevDeque<int, 2>, int>(c);
     case 2:
-      return runC36T<dispenso::ChaseLevDeque<int, 4>>(c);
+      return wide ? runC36T<dispenso::ChaseLevDeque<Wide36, 4>, Wide36>(c) : runC36T<dispenso::ChaseLevDeque<int, 4>, int>(c);
     default:
-      return runC36T<dispenso::ChaseLevDeque<int, 8>>(c);
+      return wide ? runC36T<dispenso::ChaseLevDeque<Wide36, 8>, Wide36>(c) : runC36T<dispenso::ChaseLevDeque<int, 8>, int>(c);
   }
 }
 
